@@ -291,7 +291,7 @@ pub fn run(ctx: &Ctx) -> Report {
     );
     rep.assumptions.push("refusal is never demanded outside the clearly unrepresentable set: the oracle is 'accepted => exact'".into());
     let mut st = Stats::new();
-    let v = search(ctx, "schema", ctx.tier.pick(30_000, 300_000), case_strategy, |c: &Case, st| {
+    let v = search(ctx, "schema", ctx.tier.pick(100_000, 1_000_000), case_strategy, |c: &Case, st| {
         st.eval();
         if st.wants_sample() && st.evaluations % 43 == 2 {
             st.sample(json!({"table": c.table, "columns": c.cols.iter().map(|x| format!("{}:{:?}", x.name, x.ty)).collect::<Vec<_>>()}));
